@@ -212,6 +212,8 @@ def _unit(args):
     prop, modname, subname, kind, shard, nshards, n, seed_int, tier = args
     from vf.core import Report
     try:
+        from vf import cover
+        cover.enable()
         mod = importlib.import_module(modname)
         sub = [s for s in mod.SUBS if s.name == subname][0]
         # private scratch cwd per unit so that relative writes never collide
@@ -234,6 +236,7 @@ def _unit(args):
         rep.notes.append("%s[%d/%d] %.1fs" % (subname, shard, nshards, time.time() - t0))
         os.chdir(VERIF)
         shutil.rmtree(d, ignore_errors=True)
+        cover.dump(prop)
         return rep
     except BaseException as e:  # noqa
         rep = Report()
